@@ -65,6 +65,7 @@ ERRNOS = {
     "EDQUOT": _errno.EDQUOT,
 }
 
+PERSIST_EVENT_KINDS = ("open_w", "open_a", "os_open_w", "write", "flush", "close_w", "truncate")
 WRITE_EVENT_KINDS = ("open_w", "open_a", "write", "flush", "close_w", "replace", "rename", "remove", "fsync", "os_open_w", "truncate")
 
 
@@ -85,10 +86,38 @@ class World(object):
     def path(self, rel):
         return os.path.join(self.root, rel)
 
+    # -- the same project reached through symbolic links (they live *next to* the project directory, so that
+    #    snapshots of the project never contain them)
+    def _links_dir(self):
+        d = self.root + ".links"
+        if not os.path.isdir(d):
+            os.makedirs(d)
+        return d
+
+    def alias_dir(self):
+        link = os.path.join(self._links_dir(), "project")
+        if not os.path.islink(link):
+            os.symlink(self.root, link)
+        return link
+
+    def alias_file(self, rel):
+        link = os.path.join(self._links_dir(), "link_" + rel.replace(os.sep, "_"))
+        if not os.path.islink(link):
+            os.symlink(self.path(rel), link)
+        return link
+
     def rel(self, p):
         p = os.path.abspath(_fs(p))
         if p == self.root:
             return "."
+        links = self.root + ".links" + os.sep
+        if p.startswith(links):
+            rest = p[len(links):]
+            if rest.startswith("project" + os.sep):
+                return rest[len("project") + 1:]
+            if rest.startswith("link_"):
+                return rest[len("link_"):]
+            return "<links>/" + rest
         return p[len(self.root) + 1:]
 
     def snapshot(self):
@@ -132,6 +161,7 @@ class World(object):
 
     def close(self):
         shutil.rmtree(self.root, ignore_errors=True)
+        shutil.rmtree(self.root + ".links", ignore_errors=True)
 
 
 def _fs(p):
@@ -168,7 +198,7 @@ class Sim(object):
             p = os.path.abspath(_fs(p))
         except TypeError:
             return False
-        return p == self.root or p.startswith(self.root + os.sep)
+        return p == self.root or p.startswith(self.root + os.sep) or p.startswith(self.root + ".links" + os.sep)
 
     def rel(self, p):
         return self.world.rel(p)
@@ -188,6 +218,21 @@ class Sim(object):
         f = self.fault
         if f is not None and self.fired is None and f.get("where") == "event" and f.get("index") == n:
             self._deliver(f, kind, rel, ctx or {})
+        elif (f is not None and self.fired is not None and f.get("persist") and self.fired["kind"] == "IOERR" and kind in PERSIST_EVENT_KINDS
+              and not (kind in ("open_w", "open_a", "os_open_w") and f.get("errno", "EIO") in ("ENOSPC", "EDQUOT", "EIO"))):
+            # (opening - and truncating - a file still works on a full disk; it is the writes that keep failing)
+            # a persistent condition (disk full, read-only remount, dead device): every later attempt to write fails too
+            self.fired["repeats"] = self.fired.get("repeats", 0) + 1
+            en = ERRNOS.get(f.get("errno", "EIO"), _errno.EIO)
+            if kind == "write":
+                self._write_prefix(ctx or {}, f.get("cut2", 0.5))
+            elif kind in ("close_w", "flush"):
+                fobj = (ctx or {}).get("file")
+                if fobj is not None:
+                    fobj._pending = []
+                    if kind == "close_w":
+                        fobj._really_close()
+            raise SimOSError(en, "simulated (persistent) " + os.strerror(en), rel)
 
     def step(self, code):
         if self.frozen:
@@ -258,8 +303,8 @@ class Sim(object):
             fobj._real.flush()
         elif "fd" in ctx and c:
             _orig["write"](ctx["fd"], data[:c])
-        self.fired["persisted_prefix"] = c
-        self.fired["of"] = n
+        self.fired.setdefault("persisted_prefix", c)
+        self.fired.setdefault("of", n)
 
     def _freeze(self):
         self.frozen = True
